@@ -25,7 +25,8 @@ tvars == <<sc, l, s>>
 Ev == Rec[l]
 Req(p, cond) == (p \in Props) => cond
 
-TraceInit == sc \in 1..NScen /\ l = First(sc) /\ s = 0
+\* s.bdest[v]: where the forced-boolean entry for value v was seen to branch (32-bit ARM), <<>> = not yet seen in this scenario
+TraceInit == sc \in 1..NScen /\ l = First(sc) /\ s = [bdest |-> [v \in {0, 1} |-> <<>>]]
 Step(name) == l <= Last(sc) /\ Ev.ev = name /\ l' = l + 1 /\ sc' = sc
 
 PatchWrites(e) == {i \in 1..Len(e.writes) : e.writes[i].kind = "patch"}
@@ -95,7 +96,14 @@ Sim ==
           ELSE X64Jump(Ev)
      ELSE IF Ev.isa \in {"a64-linux", "a64-macos"} THEN A64Refused(Ev)
           ELSE Req("C01", PatchWrites(Ev) = {})
-  /\ s' = s
+  \* the replacement a forced boolean branches to (a routine of the library) does not depend on the function that is
+  \* patched: same address, same instruction-set state, whatever the state and alignment of the entry
+  /\ IF Ev.outcome = "ok" /\ Ev.isa \in {"a32", "t32"} /\ Ev.kind = "bool"
+     THEN LET r == R!RunArm([base |-> W4(Ev.base), bytes |-> Ev.entry], W4(Ev.base), Ev.isa = "t32")
+              d == <<r.pc, r.thumb>>
+          IN /\ Req("C16", r.status = "left" => (s.bdest[Ev.v] = <<>> \/ s.bdest[Ev.v] = d))
+             /\ s' = IF r.status = "left" THEN [s EXCEPT !.bdest[Ev.v] = d] ELSE s
+     ELSE s' = s
 
 Note == Step("Note") /\ s' = s
 TraceNext == Sim \/ Note
